@@ -289,3 +289,93 @@ Print Assumptions C05_counters_rs_avx2_model.
 Theorem C05_counters_rs_avx2 : C05_lc_stmt 8 rs_avx2_load_counters.
 Proof. exact rs_avx2_load_counters_ok. Qed.
 Print Assumptions C05_counters_rs_avx2.
+
+(* ------------------------------------------------------------------------------------------
+   The portable compression function itself: TRANSLATED source against the hand-written model.
+   gen/GenPortable.v is regenerated from the repository on every run by tools/gen_coq.py
+   (gen_portable): src/portable.rs fn g / round / compress_pre / compress_in_place / compress_xof,
+   the two byte<->word conversions of src/platform.rs they call, and c/blake3_portable.c rotr32 /
+   g / round_fn / compress_pre / blake3_compress_in_place_portable / blake3_compress_xof_portable
+   (with counter_low / counter_high of c/blake3_impl.h), statement by statement: order, array
+   indices and rotation constants are the source's.  Each translated function equals the function
+   of Model/Portable.v that every other proof builds on, for ALL words (state and message of 16
+   words, chaining value of 8, block of 64 bytes, any counter / block_len / flags).
+   Primitives taken as given (Base/Word.v, Base/Arr.v): u32 wrapping_add / C uint32_t `+` = add32,
+   `^` = xor32, rotate_right = rotr32, u32::from_le_bytes / load32 = little-endian load,
+   to_le_bytes / store32 = bytes_of_word, array read / write / slice. *)
+From V Require Import Base.Arr gen.GenPortable Proofs.GenPortableP.
+
+(* fn g works in place on state[a], state[b], state[c], state[d]; the model's g maps four words to
+   four words: the translated statements equal the model's results written back at a, b, c, d *)
+Theorem C05_portable_rs_g : forall s a b c d x y,
+  (a < length s)%nat -> (b < length s)%nat -> (c < length s)%nat -> (d < length s)%nat ->
+  a <> b -> a <> c -> a <> d -> b <> c -> b <> d -> c <> d ->
+  rs_g s a b c d x y =
+  (let '(a', b', c', d') := Portable.g (arr_get s a) (arr_get s b) (arr_get s c) (arr_get s d) x y in
+   arr_set (arr_set (arr_set (arr_set s a a') b b') c c') d d').
+Proof. exact rs_g_model. Qed.
+Print Assumptions C05_portable_rs_g.
+Theorem C05_portable_rs_round : forall s msg r, length s = 16%nat ->
+  rs_round s msg r = Portable.round s msg r.
+Proof. exact rs_round_eq. Qed.
+Print Assumptions C05_portable_rs_round.
+Theorem C05_portable_rs_words_from_le_bytes_64 : forall bytes, length bytes = 64%nat ->
+  rs_words_from_le_bytes_64 bytes = words_of_bytes bytes.
+Proof. exact rs_words_from_le_bytes_64_eq. Qed.
+Print Assumptions C05_portable_rs_words_from_le_bytes_64.
+Theorem C05_portable_rs_le_bytes_from_words_64 : forall words, length words = 16%nat ->
+  rs_le_bytes_from_words_64 words = bytes_of_words words.
+Proof. exact rs_le_bytes_from_words_64_eq. Qed.
+Print Assumptions C05_portable_rs_le_bytes_from_words_64.
+Theorem C05_portable_rs_compress_pre : forall cv block block_len counter flags,
+  length cv = 8%nat -> length block = 64%nat ->
+  rs_compress_pre cv block block_len counter flags = Portable.compress_pre cv block block_len counter flags.
+Proof. exact rs_compress_pre_eq. Qed.
+Print Assumptions C05_portable_rs_compress_pre.
+Theorem C05_portable_rs_compress_in_place : forall cv block block_len counter flags,
+  length cv = 8%nat -> length block = 64%nat ->
+  rs_compress_in_place cv block block_len counter flags = Portable.compress_in_place cv block block_len counter flags.
+Proof. exact rs_compress_in_place_eq. Qed.
+Print Assumptions C05_portable_rs_compress_in_place.
+Theorem C05_portable_rs_compress_xof : forall cv block block_len counter flags,
+  length cv = 8%nat -> length block = 64%nat ->
+  rs_compress_xof cv block block_len counter flags = Portable.compress_xof cv block block_len counter flags.
+Proof. exact rs_compress_xof_eq. Qed.
+Print Assumptions C05_portable_rs_compress_xof.
+
+(* c/blake3_portable.c.  rotr32 is translated with C's shift rules (a shift by the full width is an
+   error): for the amounts 1..31 it is the rotation; g calls it with 16, 12, 8, 7 *)
+Theorem C05_portable_c_rotr32 : forall w c, 0 < c -> c < 32 -> c_rotr32 w c = Ok (rotr32 w c).
+Proof. exact c_rotr32_ok. Qed.
+Print Assumptions C05_portable_c_rotr32.
+Theorem C05_portable_c_g : forall s a b c d x y,
+  (a < length s)%nat -> (b < length s)%nat -> (c < length s)%nat -> (d < length s)%nat ->
+  a <> b -> a <> c -> a <> d -> b <> c -> b <> d -> c <> d ->
+  c_g s a b c d x y =
+  (let '(a', b', c', d') := Portable.g (arr_get s a) (arr_get s b) (arr_get s c) (arr_get s d) x y in
+   arr_set (arr_set (arr_set (arr_set s a a') b b') c c') d d').
+Proof. exact c_g_model. Qed.
+Print Assumptions C05_portable_c_g.
+Theorem C05_portable_c_round_fn : forall s msg r, length s = 16%nat ->
+  c_round_fn s msg r = Portable.round s msg r.
+Proof. exact c_round_fn_eq. Qed.
+Print Assumptions C05_portable_c_round_fn.
+(* `state` is an out-parameter (an uninitialised local of the callers): any previous contents *)
+Theorem C05_portable_c_compress_pre : forall state cv block block_len counter flags,
+  length state = 16%nat -> length cv = 8%nat -> length block = 64%nat ->
+  c_compress_pre state cv block block_len counter flags = Portable.compress_pre cv block block_len counter flags.
+Proof. exact c_compress_pre_eq. Qed.
+Print Assumptions C05_portable_c_compress_pre.
+Theorem C05_portable_c_compress_in_place : forall cv block block_len counter flags,
+  length cv = 8%nat -> length block = 64%nat ->
+  c_blake3_compress_in_place_portable cv block block_len counter flags =
+  Portable.compress_in_place cv block block_len counter flags.
+Proof. exact c_compress_in_place_eq. Qed.
+Print Assumptions C05_portable_c_compress_in_place.
+(* the 64 output bytes go to the caller's buffer `out`, whatever it held *)
+Theorem C05_portable_c_compress_xof : forall cv block block_len counter flags out,
+  length cv = 8%nat -> length block = 64%nat -> length out = 64%nat ->
+  c_blake3_compress_xof_portable cv block block_len counter flags out =
+  Portable.compress_xof cv block block_len counter flags.
+Proof. exact c_compress_xof_eq. Qed.
+Print Assumptions C05_portable_c_compress_xof.
